@@ -141,18 +141,23 @@ def gen_history(rng, tier='quick', p_unresolvable=0.0):
         if rng.random() < 0.5:
             specs[1]['environment'] = keep_env
 
-    # operations
+    # operations.  A finish is zero to two interrupted attempts (a kill at some boundary step, a
+    # failing ipset / conntrack call, or a kill right after the network request link has been
+    # removed) followed by a complete run; other containers start and finish in between.
     ops = []
     stage = ['new'] * n
+    attempts = [0] * n
     guard = 0
+    prefer_start = False
     while any(s != 'finished' for s in stage):
         guard += 1
-        assert guard < 200
+        assert guard < 300
         new = [i for i in range(n) if stage[i] == 'new']
-        live = [i for i in range(n) if stage[i] == 'started']
+        live = [i for i in range(n) if stage[i] in ('started', 'finishing')]
         done = [i for i in range(n) if stage[i] == 'finished']
         r = rng.random()
-        if new and (r < 0.55 or not live):
+        if new and (r < 0.5 or not live or (prefer_start and r < 0.9)):
+            prefer_start = False
             i = rng.choice(new)
             op = {'op': 'start', 'c': i, 'cut': None}
             if rng.random() < 0.12:
@@ -160,15 +165,25 @@ def gen_history(rng, tier='quick', p_unresolvable=0.0):
             ops.append(op)
             stage[i] = 'started'
         elif live and (r < 0.92 or not done):
+            prefer_start = False
             i = rng.choice(live)
+            if stage[i] == 'started':
+                attempts[i] = rng.choice([0, 0, 0, 0, 0, 1, 1, 1, 2])
+                stage[i] = 'finishing'
             op = {'op': 'finish', 'c': i, 'via': 'finish' if rng.random() < 0.8 else 'cleanup_network',
-                  'cuts': [], 'repeat': rng.choice([0, 0, 1, 1, 2])}
-            r2 = rng.random()
-            if r2 < 0.30:
-                op['cuts'] = [[rng.choice(['kill', 'error']), round(rng.random(), 3)]
-                              for _ in range(rng.choice([1, 1, 2]))]
+                  'cut': None, 'repeat': 0}
+            if attempts[i] > 0:
+                attempts[i] -= 1
+                r2 = rng.random()
+                if r2 < 0.25:
+                    op['cut'] = ['kill_at', 'clt_del_request:done']
+                    prefer_start = True
+                else:
+                    op['cut'] = [rng.choice(['kill', 'error']), round(rng.random(), 3)]
+            else:
+                op['repeat'] = rng.choice([0, 0, 1, 1, 2])
+                stage[i] = 'finished'
             ops.append(op)
-            stage[i] = 'finished'
         elif done:
             ops.append({'op': 'refinish', 'c': rng.choice(done),
                         'via': 'finish' if rng.random() < 0.8 else 'cleanup_network'})
